@@ -60,7 +60,7 @@ func main() {
 	if t := os.Getenv("VERIF_TIER"); t != "" && (t == "quick" || t == "thorough") {
 		*tier = t
 	}
-	eng := &Engine{repo: *repo, extraImports: map[string][][2]string{}, noPrune: os.Getenv("GOVC_NOPRUNE") != ""}
+	eng := &Engine{repo: *repo, extraImports: map[string][][2]string{}, noPrune: os.Getenv("GOVC_NOPRUNE") != "", prop: *prop}
 	if err := eng.Load(); err != nil {
 		msg := err.Error()
 		if lines := strings.Split(msg, "\n"); len(lines) > 12 {
@@ -267,6 +267,9 @@ func buildReport(eng *Engine, prop, tier string, units []*UnitResult, verifDir s
 			}
 			if o.Kind == "vacuity" {
 				r.vacChecks++
+				continue
+			}
+			if o.Status == "skipped" {
 				continue
 			}
 			no := byName[o.Name]
